@@ -22,6 +22,11 @@ pub struct Seed {
     pub c: Element,
     pub r: Element,
     pub l2: Element,
+    /// a second possible target of the reference
+    pub c3: Element,
+    /// AR-PACKAGES inside p10 (a destination that lies below the parent of p1) and a package inside it (an element two levels below pkgs)
+    pub p10sub: Element,
+    pub p10a: Element,
 }
 
 const V50: AutosarVersion = AutosarVersion::Autosar_00050;
@@ -41,7 +46,10 @@ pub fn mk_seed() -> Seed {
     let l2 = p10.create_sub_element(ElementName::Desc).unwrap().create_sub_element(ElementName::L2).unwrap();
     l2.set_attribute(AttributeName::L, EnumItem::En).unwrap();
     l2.insert_character_content_item("text", 0).unwrap();
-    Seed { model, file, pkgs, p1, p10, els, s, c, r, l2 }
+    let c3 = els.create_named_sub_element(ElementName::CanCluster, "c3").unwrap();
+    let p10sub = p10.create_sub_element(ElementName::ArPackages).unwrap();
+    let p10a = p10sub.create_named_sub_element(ElementName::ArPackage, "p10a").unwrap();
+    Seed { model, file, pkgs, p1, p10, els, s, c, r, l2, c3, p10sub, p10a }
 }
 
 fn doc(pkg: &str) -> String {
@@ -133,6 +141,9 @@ pub fn catalogue() -> Vec<CatOp> {
     op!(v, "p10.create(ELEMENTS)", false, |s: &Seed| res(s.p10.create_sub_element(ElementName::Elements)));
     op!(v, "els.copy(c)", false, |s: &Seed| resd(s.els.create_copied_sub_element(&s.c).map(|e| e.item_name())));
     op!(v, "p10.move_here(els)", false, |s: &Seed| res(s.p10.move_element_here(&s.els)));
+    op!(v, "p10sub.move_here(p1)", false, |s: &Seed| res(s.p10sub.move_element_here(&s.p1)));
+    op!(v, "pkgs.move_here(p10a)", false, |s: &Seed| res(s.pkgs.move_element_here(&s.p10a)));
+    op!(v, "r.set_reference_target(c3)", false, |s: &Seed| res(s.r.set_reference_target(&s.c3)));
     op!(v, "els.remove(c)", false, |s: &Seed| res(s.els.remove_sub_element(s.c.clone())));
     op!(v, "pkgs.remove(p1)", false, |s: &Seed| res(s.pkgs.remove_sub_element(s.p1.clone())));
     op!(v, "c.set_item_name(c2)", false, |s: &Seed| res(s.c.set_item_name("c2")));
@@ -230,6 +241,24 @@ pub fn check_tuple(ops: &[&CatOp], max_bound: usize, budget_execs: u64) -> PairR
     let seqs = sequential_outcomes(ops);
     let seq_results: HashSet<&Vec<String>> = seqs.iter().map(|(r, _)| r).collect();
     let seq_finals: HashSet<&String> = seqs.iter().map(|(_, f)| f).collect();
+    // invariant keys broken by the sequential executions (every order, every prefix)
+    let mut seq_invariant_keys: HashSet<String> = HashSet::new();
+    {
+        let n = ops.len();
+        let mut orders: Vec<Vec<usize>> = vec![vec![]];
+        for _ in 0..n {
+            orders = orders.iter().flat_map(|o| (0..n).filter(|i| !o.contains(i)).map(|i| { let mut p = o.clone(); p.push(i); p }).collect::<Vec<_>>()).collect();
+        }
+        for order in orders {
+            let sd = mk_seed();
+            for &i in &order {
+                let _ = (ops[i].f)(&sd);
+                for p in all_invariants(&sd.model, &Scope::default()) {
+                    seq_invariant_keys.insert(format!("{}|{}", p.prop, p.key));
+                }
+            }
+        }
+    }
     let t0 = std::time::Instant::now();
     let mut pr = PairResult { names: names.clone(), bound_completed: 0, executions: 0, points: 0, outcomes: 0, c15: vec![], c16: vec![], errors: vec![], wall_s: 0.0 };
     let mut seen_c15: BTreeSet<String> = BTreeSet::new();
@@ -297,6 +326,11 @@ pub fn check_tuple(ops: &[&CatOp], max_bound: usize, budget_execs: u64) -> PairR
             let seed = Arc::new(mk_seed());
             if run(seed.clone(), &fns, schedule).is_ok() {
                 for p in all_invariants(&seed.model, &Scope::default()) {
+                    // an invariant that a sequential execution of the same operations breaks as well is not a matter of concurrency
+                    // (it belongs to the sequential checks of its property)
+                    if seq_invariant_keys.contains(&format!("{}|{}", p.prop, p.key)) {
+                        continue;
+                    }
                     let key = format!("invariant-broken-in-serializable-outcome|{label}|{}|{}", p.prop, p.key);
                     if seen_c16.insert(key.clone()) {
                         pr.c16.push((key, json!({"kind": "schedule", "ops": names, "schedule": schedule, "results": results, "detail": p.detail})));
